@@ -102,6 +102,18 @@ func newC05World(res *vlib.Result, hist, layout string) *c05World {
 		c := baseCfg(p.auth, p.enc, []security.AuthMethod{mTOK, mCTB}, []security.CryptoMethod{security.CryptoAES}, true)
 		return c
 	}
+	var own *security.SessionCache
+	if layout == "owncache" {
+		// the server is configured with a session cache of its own (negotiated sessions still go
+		// to the package-global cache, which resumption falls back to)
+		own = security.NewSessionCache()
+		inner := mk
+		mk = func(p c05Policy) *security.SecurityConfig {
+			c := inner(p)
+			c.SessionCache = own
+			return c
+		}
+	}
 	def := mk(c05Pol[cmdA])
 	if layout == "nilhook" {
 		def = mk(c05Pol[cmdC])
@@ -210,9 +222,10 @@ func (w *c05World) authorizedNow(user string, cmd int) bool {
 
 // one connection: client kind, optional explicit resumption, command list
 type c05Conn struct {
-	kind   string // alice, bob, anon, plain, keyskip, raw
+	kind   string // alice, bob, anon, plain, keyskip, raw, alice-nc (TOKEN, no cipher), thief
 	resume bool
 	cmds   []int
+	victim string // thief: whose last session id is named in the (key-less, credential-less) resumption request
 }
 
 // runConn executes one connection against the real server and judges every dispatch.
@@ -308,9 +321,42 @@ func (w *c05World) runConn(cn c05Conn) {
 			}
 			return
 		}
+		if cn.kind == "thief" {
+			// scripted requester that holds neither key nor credentials: it names somebody else's
+			// session id in a resumption request and then speaks in clear
+			p := &peerConn{end: ce}
+			ad := newWireAd()
+			ad.setI("Command", cn.cmds[0]).setS("UseSession", "YES").setS("Sid", w.lastSid[cn.victim]).set("ResumeResponse", "true")
+			ad.setS("RemoteVersion", "$CondorVersion: 25.4.0 2025-10-31 BuildID: 1 $").setS("CryptoMethods", "AES")
+			if err := p.sendMsg(append(refcodec.EncInt(dcAuthenticate), ad.encode(false)...), false); err != nil {
+				out.hsErr = err
+				return
+			}
+			m, err := p.recvMsg()
+			if err != nil {
+				out.hsErr = err
+				return
+			}
+			if (&wireReader{b: m}).ad().str("ReturnCode") != "AUTHORIZED" {
+				out.hsErr = fmt.Errorf("resumption refused")
+				return
+			}
+			if m, err := p.recvMsg(); err == nil {
+				out.responses = append(out.responses, string(m))
+			}
+			return
+		}
 		// real cedar client
 		var cfg *security.SecurityConfig
 		switch cn.kind {
+		case "alice-nc":
+			// authenticates by TOKEN but has no cipher in common with the server: the session that
+			// results is authenticated and carries NO key
+			cfg = baseCfg(security.SecurityPreferred, security.SecurityOptional, []security.AuthMethod{mTOK}, nil, false)
+			cfg.Token = goodToken("alice@verif.domain")
+		case "carol-nc":
+			// authenticates by CLAIMTOBE with no cipher in common: authenticated, and no key material at all
+			cfg = baseCfg(security.SecurityPreferred, security.SecurityOptional, []security.AuthMethod{mCTB}, nil, false)
 		case "alice", "bob":
 			cfg = baseCfg(security.SecurityPreferred, security.SecurityPreferred, []security.AuthMethod{mTOK}, []security.CryptoMethod{security.CryptoAES}, false)
 			cfg.Token = goodToken(cn.kind + "@verif.domain")
@@ -372,7 +418,7 @@ func (w *c05World) runConn(cn c05Conn) {
 	if out.neg != nil {
 		sid = out.neg.SessionId
 	}
-	if cn.kind != "raw" && cn.kind != "keyskip" && out.hsErr == nil && sid != "" {
+	if cn.kind != "raw" && cn.kind != "keyskip" && cn.kind != "thief" && out.hsErr == nil && sid != "" {
 		if !out.resumed {
 			// authentication exchange ran <=> the client sent more than its ad before the first follow-on
 			n := 0
@@ -381,8 +427,8 @@ func (w *c05World) runConn(cn c05Conn) {
 					n++
 				}
 			}
-			w.truthAuth[sid] = n > 0 && (cn.kind == "alice" || cn.kind == "bob")
-			w.truthUser[sid] = cn.kind
+			w.truthAuth[sid] = n > 0 && (cn.kind == "alice" || cn.kind == "bob" || cn.kind == "alice-nc" || cn.kind == "carol-nc")
+			w.truthUser[sid] = strings.TrimSuffix(cn.kind, "-nc")
 		}
 		w.lastSid[cn.kind] = sid
 	}
@@ -412,12 +458,24 @@ func (w *c05World) runConn(cn c05Conn) {
 		truthAuth := false
 		user := ""
 		switch cn.kind {
+		case "thief":
+			// Holds no key and no credentials. Where the resumed session has a key, the server's side of
+			// the connection is protected from the reply onwards and the requester can neither read a
+			// byte nor get one accepted (C06): the dispatch is judged as the session's. Where it has
+			// none, nobody has proved - or can ever prove - anything on this connection.
+			truthAuth, user = false, ""
+			if iv.streamEnc {
+				truthAuth, user = w.truthAuth[iv.sid], w.truthUser[iv.sid]
+			}
 		case "keyskip":
 			truthAuth, user = true, "mallory" // CLAIMTOBE exchange completed in the scripted peer
 		default:
 			truthAuth, user = w.truthAuth[iv.sid], w.truthUser[iv.sid]
 		}
 		kind := fmt.Sprintf("%s/cmd=%d/pos=%s", cn.kind, iv.cmd, map[bool]string{true: "first", false: "follow"}[i == 0])
+		if cn.kind == "thief" {
+			kind = fmt.Sprintf("thief-names-session-of-%s/cmd=%d", cn.victim, iv.cmd)
+		}
 		if cn.resume {
 			kind += "/resumed"
 		}
@@ -532,6 +590,8 @@ func (e c05Event) String() string {
 		return fmt.Sprintf("table(%s)", e.tab)
 	case "raw":
 		return fmt.Sprintf("raw(%d)", e.cmd)
+	case "steal":
+		return fmt.Sprintf("steal(%s,%d)", e.who, e.cmd)
 	}
 	return e.kind
 }
@@ -600,6 +660,9 @@ func c05Run(hist []c05Event, layout string) *vlib.Result {
 		case "raw":
 			flush()
 			w.runConn(c05Conn{kind: "raw", cmds: []int{e.cmd}})
+		case "steal":
+			flush()
+			w.runConn(c05Conn{kind: "thief", victim: e.who, cmds: []int{e.cmd}})
 		}
 	}
 	flush()
@@ -614,7 +677,7 @@ func c05Run(hist []c05Event, layout string) *vlib.Result {
 func C05Plan() *vlib.Plan {
 	p := &vlib.Plan{
 		Property: "C05", Level: "model_checking", Procs: 16,
-		Rule:   "Bounded history enumeration on a real server.Server with commands A (auth/enc OPTIONAL, READ), B (auth REQUIRED, WRITE), C (auth+enc REQUIRED, DAEMON), D (raw), E (unregistered), F (registered raw, then re-registered authenticated with C's policy), G (registered authenticated, then re-registered raw), per-command policies and a switchable authorizer table, in two layouts (permissive default + a per-command answer for every command; strictest default + a per-command hook that returns nil for C so that C's policy arrives through the fallback - run for every history that mentions C; and permissive default + an FQUMapper, the authorizer table applying to the MAPPED names while a raw name would be allowed everything - run for every history that sets a table). Events: open a connection as {alice, bob (TOKEN), unauthenticated, plaintext, 'lurker' (lists TOKEN but holds no token: a method is pre-selected yet nothing ever runs), scripted key-skipping CLAIMTOBE client} with first command x; follow-on command x on the kept-alive connection; reconnect and explicitly resume the client's last session with command x; switch the authorizer table; raw send of x. All histories <= 3 events (quick: reduced alphabet; thorough: full alphabet) plus, in thorough, all histories of 4 events over a core alphabet (follow requires an open connection, resume requires a prior session). A monitor inside every handler records each dispatch; oracle: registered + right path (raw vs authenticated), authentication really ran on the wire for that session when the command requires it, stream really encrypted and canaries invisible when it requires encryption, identity currently authorized when a table is set; refused/unknown commands close the connection and nothing further runs. Non-trivial = history with >= 1 dispatch decision.",
+		Rule:   "Bounded history enumeration on a real server.Server with commands A (auth/enc OPTIONAL, READ), B (auth REQUIRED, WRITE), C (auth+enc REQUIRED, DAEMON), D (raw), E (unregistered), F (registered raw, then re-registered authenticated with C's policy), G (registered authenticated, then re-registered raw), per-command policies and a switchable authorizer table, in two layouts (permissive default + a per-command answer for every command; strictest default + a per-command hook that returns nil for C so that C's policy arrives through the fallback - run for every history that mentions C; and permissive default + an FQUMapper, the authorizer table applying to the MAPPED names while a raw name would be allowed everything - run for every history that sets a table). Events: open a connection as {alice, bob (TOKEN), unauthenticated, plaintext, 'lurker' (lists TOKEN but holds no token: a method is pre-selected yet nothing ever runs), scripted key-skipping CLAIMTOBE client} with first command x; follow-on command x on the kept-alive connection; reconnect and explicitly resume the client's last session with command x; switch the authorizer table; raw send of x. All histories <= 3 events (quick: reduced alphabet; thorough: full alphabet) plus, in thorough, all histories of 4 events over a core alphabet (follow requires an open connection, resume requires a prior session). Plus all histories <= 3 over {open as alice / anonymous / 'alice-nc' / 'carol-nc' (TOKEN / CLAIMTOBE with no cipher in common: authenticated sessions whose key has no cipher / that have no key at all), a scripted requester without key or credentials naming one of their session ids in a resumption request, table switches}, against the default server and against a server configured with a session cache of its own. A monitor inside every handler records each dispatch; oracle: registered + right path (raw vs authenticated), authentication really ran on the wire for that session when the command requires it, stream really encrypted and canaries invisible when it requires encryption, identity currently authorized when a table is set; refused/unknown commands close the connection and nothing further runs. Non-trivial = history with >= 1 dispatch decision.",
 		Assume: []string{"16 worker processes, each with its own process-global server cache", "ground truth for 'authenticated' = an authentication exchange was seen on the wire when the session was created"},
 	}
 	p.Gen = func(tier string, yield func(vlib.Case)) {
@@ -700,6 +763,53 @@ func C05Plan() *vlib.Plan {
 			}
 		}
 		rec(nil, false, map[string]bool{})
+		// somebody else's session id named by a requester without key or credentials, against a
+		// server with a session cache of its own and against the default one: all histories <= 3
+		// over a small alphabet of its own
+		stealAb := []c05Event{
+			{kind: "open", who: "alice-nc", cmd: cmdA}, {kind: "open", who: "carol-nc", cmd: cmdA}, {kind: "open", who: "carol-nc", cmd: cmdB}, {kind: "open", who: "alice", cmd: cmdB}, {kind: "open", who: "anon", cmd: cmdA},
+			{kind: "steal", who: "alice-nc", cmd: cmdA}, {kind: "steal", who: "alice-nc", cmd: cmdB}, {kind: "steal", who: "carol-nc", cmd: cmdA}, {kind: "steal", who: "carol-nc", cmd: cmdB}, {kind: "steal", who: "carol-nc", cmd: cmdC}, {kind: "steal", who: "alice", cmd: cmdB}, {kind: "steal", who: "anon", cmd: cmdB},
+			{kind: "table", tab: "T1"}, {kind: "table", tab: "T3"},
+		}
+		var srec func(h []c05Event, sessions map[string]bool)
+		srec = func(h []c05Event, sessions map[string]bool) {
+			nsteal := 0
+			for _, e := range h {
+				if e.kind == "steal" {
+					nsteal++
+				}
+			}
+			if nsteal > 0 {
+				hh := append([]c05Event(nil), h...)
+				names := make([]string, len(hh))
+				for i, e := range hh {
+					names[i] = e.String()
+				}
+				for _, layout := range []string{"owncache", "percmd"} {
+					layout := layout
+					yield(vlib.Case{ID: layout + ": " + strings.Join(names, " "), Run: func() *vlib.Result { return c05Run(hh, layout) }})
+				}
+			}
+			if len(h) == 3 {
+				return
+			}
+			for _, e := range stealAb {
+				ns := sessions
+				switch e.kind {
+				case "open":
+					ns = map[string]bool{e.who: true}
+					for k := range sessions {
+						ns[k] = true
+					}
+				case "steal":
+					if !sessions[e.who] {
+						continue
+					}
+				}
+				srec(append(h, e), ns)
+			}
+		}
+		srec(nil, map[string]bool{})
 		if tier == "thorough" {
 			// depth-4 histories over the core alphabet (shorter ones are covered above)
 			D, ab, minLen = 4, core, 4
